@@ -585,6 +585,17 @@ func deviationCases(thorough bool) []caseRec {
 			devCase{"replace-type-and-default", "leaf x { %s default abc; }", "type string;", "deviate replace { type int8; default 5; }", "UNSPEC", "ok"},
 		)
 	}
+	// every case again with an (enabled) if-feature on the target: deviations and features combine
+	n := len(cs)
+	for _, c := range cs[:n] {
+		c2 := c
+		c2.name += "+if-feature"
+		c2.base += " if-feature tf;"
+		if c.expect == "ok" && c.edited != "-" && c.edited != "UNSPEC" {
+			c2.edited += " if-feature tf;"
+		}
+		cs = append(cs, c2)
+	}
 	var out []caseRec
 	for _, c := range cs {
 		target := "/t:top/t:x"
@@ -598,10 +609,10 @@ func deviationCases(thorough bool) []caseRec {
 			if present {
 				node = " " + strings.Replace(c.target, "%s", props, 1)
 			}
-			return "module t { namespace \"urn:t\"; prefix t; container top { leaf inner2 { type string; }" + node + " } }"
+			return "module t { namespace \"urn:t\"; prefix t; feature tf; container top { leaf inner2 { type string; }" + node + " } }"
 		}
 		dmod := fmt.Sprintf("module d { namespace \"urn:d\"; prefix d; import t { prefix t; } deviation %s { %s } }", target, dev)
-		r := caseRec{Kind: "deviation", Name: c.name, Mods: map[string]string{"t": tmod(c.base, true), "d": dmod}, Expect: c.expect}
+		r := caseRec{Kind: "deviation", Name: c.name, Mods: map[string]string{"t": tmod(c.base, true), "d": dmod}, Expect: c.expect, Feats: []string{"t:tf"}}
 		if c.expect == "ok" && c.edited != "UNSPEC" {
 			if c.edited == "-" {
 				r.Mods2 = map[string]string{"t": tmod("", false)}
